@@ -59,12 +59,24 @@ def x_processor_consts():
         raise Broken("cleanup.go: retry branch effects (post request, resend ourMsg, retryCount++, lastRetry=now)")
     nil_branch_uses_cur = re.search(r'wantSigs := CalculateQuorum\(len\(p\.gs\.Keys\)\)', rb) is not None
     # message.go
-    mp = re.search(r'if existing, err = vaa\.Unmarshal\(vb\); err != nil \{\s*([^\n]+)', ms)
+    mp = re.search(r'if existing, err = vaa\.Unmarshal\(vb\); err != nil \{', ms)
     if not mp:
         raise Broken("message.go: Unmarshal of the stored VAA not found")
-    stored_panics = mp.group(1).strip().startswith("panic(")
-    if not re.search(r'if k\.Timestamp\.Sub\(existing\.Timestamp\) > settlementTime \{', ms):
-        raise Broken("message.go: settlement comparison not found")
+    # body of the error branch up to its closing brace
+    depth, j = 1, mp.end()
+    while j < len(ms) and depth:
+        depth += {"{": 1, "}": -1}.get(ms[j], 0)
+        j += 1
+    errblk = re.sub(r'//[^\n]*', '', ms[mp.end():j - 1])
+    stored_panics = "panic(" in errblk
+    if re.search(r'\b(return|continue|break)\b', errblk):
+        raise Broken("message.go: the error branch of the stored-VAA decode leaves the handler; the model signs again instead")
+    after = ms[j - 1:j + 80]
+    if stored_panics:
+        if not re.match(r'\}\s*if k\.Timestamp\.Sub\(existing\.Timestamp\) > settlementTime \{', after):
+            raise Broken("message.go: settlement comparison not found after the stored-VAA decode")
+    elif not re.match(r'\} else if k\.Timestamp\.Sub\(existing\.Timestamp\) > settlementTime \{', after):
+        raise Broken("message.go: without a panic the settlement comparison must be the else-branch of the stored-VAA decode (existing would be nil)")
     if not re.search(r'if v\.EmitterAddress == p\.governanceEmitterAddress && v\.EmitterChain == p\.governanceChainId \{(?:[^}]|\n)*?return\s*\n\s*\}', ms):
         raise Broken("message.go: governance-emitter drop not found")
     out = ("Definition ns_second : Z := 1000000000.\n"
